@@ -128,6 +128,8 @@ var programs = []string{
 	"//rel.union({nums, {1000}})",
 	"//eval.value('1 + 1')",
 	"r rank (k: .x)",
+	"nums sum .", "r sum .x", "(r => .x) mean .", "nums sum . * 2",
+	"exp3('A')", "exp3('B')", "exp3('C')", // one shared partial application of a curried standard-library function
 	"r <&> ysub",
 	"(r <&> ysub) count",
 	"r -&- ysub",
@@ -243,6 +245,21 @@ func Run(c *run.Ctx) {
 		out []string
 	}
 	results := make([]res, g)
+	if firstUse {
+		// exp3 is built with the parser; in a first-use run nothing may touch package syntax before the goroutines
+		var keep []string
+		for _, p := range progs {
+			if !strings.HasPrefix(p, "exp3(") {
+				keep = append(keep, p)
+			}
+		}
+		if len(keep) == 0 {
+			keep = []string{"t.a1 + t.a2"}
+		}
+		progs = keep
+	} else if v, err := syntax.EvalWithScope(ctx, progPath, "//str.expand('')(arr)(':,')", scope); err == nil {
+		scope = scope.With("exp3", v)
+	}
 	var compiled []rel.Expr
 	if !firstUse {
 		for _, p := range progs {
